@@ -264,6 +264,12 @@ func (i *Install) RunWithContext(ctx context.Context, chrt *chart.Chart, vals ma
 		interactWithRemote = true
 	}
 
+	// Check the values against the schemas of the chart and its subcharts before
+	// anything, CRDs included, is sent to the cluster.
+	if _, err := chartutil.ToRenderValuesWithSchemaValidation(chrt, vals, chartutil.ReleaseOptions{}, nil, i.SkipSchemaValidation); err != nil {
+		return nil, err
+	}
+
 	// Pre-install anything in the crd/ directory. We do this before Helm
 	// contacts the upstream server and builds the capabilities object.
 	if crds := chrt.CRDObjects(); !i.ClientOnly && !i.SkipCRDs && len(crds) > 0 {
